@@ -5,19 +5,20 @@ import Tickit.Proof.LifeState
 -/
 namespace Tickit.Life
 open WinTree (Id Win Req Change Tree)
+variable {gh : Ghost}
 
 /-! ## operations that only rearrange the tree -/
 
 /-- A new tree related to the old one window by window, with the same counts, keeps the state invariant. -/
-theorem SInv.of_rel {st : St} (inv : SInv st) {t' : Tree} (hinv : TInv t') (hrel : TRel st.tree t')
-    (hrc : SameRC st.tree t') : SInv { st with tree := t' } := by
+theorem SInv.of_rel {st : St} (inv : SInv gh st) {t' : Tree} (hinv : TInv t') (hrel : TRel st.tree t')
+    (hrc : SameRC st.tree t') : SInv gh { st with tree := t' } := by
   have live_iff : ∀ (i : Nat), (∃ w, LiveW t' i w) ↔ (∃ w, LiveW st.tree i w) := by
     intro i
     constructor
     · rintro ⟨w', hl'⟩; obtain ⟨w, hl, _⟩ := hrel.live_back hl'; exact ⟨w, hl⟩
     · rintro ⟨w, hl⟩; obtain ⟨w', hl', _⟩ := hrel.live hl; exact ⟨w', hl'⟩
   refine ⟨⟨hinv, by simp only; rw [hrel.1]; exact inv.wx_size, ?_, List.nodup_nil, by intro i hi; simp at hi, ?_,
-    ⟨inv.pens.rc, inv.pens.ex, inv.pens.pos⟩, ?_, ?_, ?_, inv.simple⟩, ?_⟩
+    ⟨inv.pens.rc, inv.pens.ex, inv.pens.pos⟩, ?_, ?_, ?_, inv.simple⟩, ?_, fun hg => (live_iff 0).2 (inv.glive hg)⟩
   rotate_right
   · intro i w' hl'
     obtain ⟨w, hl, _⟩ := hrel.live_back hl'
@@ -34,8 +35,8 @@ theorem SInv.of_rel {st : St} (inv : SInv st) {t' : Tree} (hinv : TInv t') (hrel
     exact inv.term_held hf (by rcases h with h | h; exact .inl ((live_iff 0).1 h); simp at h)
   · intro hf h
     exact inv.term_free hf (by rintro (h' | h'); exact h (.inl ((live_iff 0).2 h')); simp at h')
-  · intro hf h
-    exact inv.term_dead hf (by rcases h with h | h; exact .inl ((live_iff 0).1 h); simp at h)
+  · intro hf
+    refine ⟨fun h => (inv.term_dead hf).1 (by rcases h with h | h; exact .inl ((live_iff 0).1 h); simp at h), (inv.term_dead hf).2⟩
 
 /-- `tickit_window_set_geometry`. -/
 theorem setGeomT_ok {t : Tree} (inv : TInv t) {win : Nat} {ww : Win} (hw : LiveW t win ww) (g : Rect) :
@@ -120,6 +121,7 @@ end Tickit.Life
 
 namespace Tickit.Life
 open WinTree (Id Win Req Change Tree)
+variable {gh : Ghost}
 
 /-! ## `tickit_window_new` -/
 
@@ -286,6 +288,7 @@ end Tickit.Life
 
 namespace Tickit.Life
 open WinTree (Id Win Req Change Tree)
+variable {gh : Ghost}
 
 theorem getX_append_push {st : St} (x : WinX) (i : Nat) (hi : i < st.wx.size) :
     ((st.wx ++ Array.replicate (st.wx.size - st.wx.size) ({} : WinX)).push x)[i]?.getD {} = getX st i := by
@@ -342,9 +345,9 @@ theorem doHC_insert_ok {t : Tree} (inv : TInv t) {q : Nat} {qw : Win} (hql : Liv
     exact ⟨_, h1, h2⟩
 
 /-- `tickit_window_new` never fails under a live parent, and keeps the invariant. -/
-theorem newWin_ok {st : St} (inv : SInv st) {p : Nat} {pw : Win} (hp : LiveW st.tree p pw)
+theorem newWin_ok {st : St} (inv : SInv gh st) {p : Nat} {pw : Win} (hp : LiveW st.tree p pw)
     (r : Rect) (hidden lowest rootParent steal : Bool) :
-    ∃ st' id, newWin st p r hidden lowest rootParent steal = .ok (st', id) ∧ SInv st' := by
+    ∃ st' id, newWin st p r hidden lowest rootParent steal = .ok (st', id) ∧ SInv gh st' := by
   unfold newWin
   -- the parent actually used
   have hclimb : ∃ (q : Nat) (r' : Rect) (qw : Win), resolveParent st p r rootParent = .ok (q, r') ∧ LiveW st.tree q qw := by
@@ -409,7 +412,8 @@ theorem newWin_ok {st : St} (inv : SInv st) {p : Nat} {pw : Win} (hp : LiveW st.
       by_cases h0q : (0 : Nat) = q
       · subst h0q; exact ⟨_, hqI⟩
       · exact ⟨x, by rw [G]; simp [h0q, h0]; exact hl.1, hl.2⟩
-  refine ⟨⟨invI, ?_, ?_, List.nodup_nil, by intro i hi; simp at hi, ?_, ⟨?_, ?_, inv.pens.pos⟩, ?_, ?_, ?_, inv.simple⟩, ?_⟩
+  refine ⟨⟨invI, ?_, ?_, List.nodup_nil, by intro i hi; simp at hi, ?_, ⟨?_, ?_, inv.pens.pos⟩, ?_, ?_, ?_, inv.simple⟩, ?_,
+    fun hg => live0.2 (inv.glive hg)⟩
   rotate_right
   · intro i x' hl'
     by_cases hi : i = st.tree.wins.size
@@ -423,8 +427,14 @@ theorem newWin_ok {st : St} (inv : SInv st) {p : Nat} {pw : Win} (hp : LiveW st.
         rw [Array.getElem?_push]
         simp [hwx]
       rw [e]
-      show (1 : Int) ≤ ((1 : Nat) : Int)
-      omega
+      refine ⟨?_, fun hcov => ?_⟩
+      · show (1 : Int) ≤ ((1 : Nat) : Int) + (gh.win st.tree.wins.size : Int)
+        omega
+      · rcases hcov with h0 | hg
+        · have := hql.lt
+          omega
+        · show ((1 : Nat) : Int) + (gh.win st.tree.wins.size : Int) ≤ 1
+          rw [hg]; decide
     · obtain ⟨x, hx, hf, hr⟩ := oldw i x' hl'.1 hi
       have hilt : i < st.tree.wins.size := by
         by_cases hilt : i < st.tree.wins.size
@@ -461,20 +471,21 @@ theorem newWin_ok {st : St} (inv : SInv st) {p : Nat} {pw : Win} (hp : LiveW st.
     exact inv.term_held hf (by rcases h with h | h; exact .inl (live0.1 h); simp at h)
   · intro hf h
     exact inv.term_free hf (by rintro (h' | h'); exact h (.inl (live0.2 h')); simp at h')
-  · intro hf h
-    exact inv.term_dead hf (by rcases h with h | h; exact .inl (live0.1 h); simp at h)
+  · intro hf
+    refine ⟨fun h => (inv.term_dead hf).1 (by rcases h with h | h; exact .inl (live0.1 h); simp at h), (inv.term_dead hf).2⟩
 
 end Tickit.Life
 
 namespace Tickit.Life
 open WinTree (Id Win Req Change Tree)
+variable {gh : Ghost}
 
 /-! ## the state invariant under a change of the tree that frees nothing -/
 
-theorem SInvB.of_tree {st : St} (inv : SInvB st []) {t' : Tree} (hinv : TInv t') (hsz : t'.wins.size = st.tree.wins.size)
+theorem SInvB.of_tree {st : St} (inv : SInvB gh st []) {t' : Tree} (hinv : TInv t') (hsz : t'.wins.size = st.tree.wins.size)
     (h : ∀ (i : Nat) (w : Win), st.tree.wins[i]? = some w →
       ∃ w', t'.wins[i]? = some w' ∧ w'.freed = w.freed ∧ (w.freed = false → 1 ≤ w.refcount → 1 ≤ w'.refcount)) :
-    SInvB { st with tree := t' } [] := by
+    SInvB gh { st with tree := t' } [] := by
   have back : ∀ (i : Nat) (w' : Win), t'.wins[i]? = some w' →
       ∃ w, st.tree.wins[i]? = some w ∧ w'.freed = w.freed ∧ (w.freed = false → 1 ≤ w.refcount → 1 ≤ w'.refcount) := by
     intro i w' hw'
@@ -512,15 +523,18 @@ theorem SInvB.of_tree {st : St} (inv : SInvB st []) {t' : Tree} (hinv : TInv t')
     exact inv.term_held hf (by rcases h with h | h; exact .inl ((live_iff 0).1 h); simp at h)
   · intro hf h
     exact inv.term_free hf (by rintro (h' | h'); exact h (.inl ((live_iff 0).2 h')); simp at h')
-  · intro hf h
-    exact inv.term_dead hf (by rcases h with h | h; exact .inl ((live_iff 0).1 h); simp at h)
+  · intro hf
+    refine ⟨fun h => (inv.term_dead hf).1 (by rcases h with h | h; exact .inl ((live_iff 0).1 h); simp at h), (inv.term_dead hf).2⟩
 
 /-- A new tree of the same size in which every window keeps `freed` and (if live) its count. -/
-theorem SInv.of_tree {st : St} (inv : SInv st) {t' : Tree} (hinv : TInv t') (hsz : t'.wins.size = st.tree.wins.size)
+theorem SInv.of_tree {st : St} (inv : SInv gh st) {t' : Tree} (hinv : TInv t') (hsz : t'.wins.size = st.tree.wins.size)
     (h : ∀ (i : Nat) (w : Win), st.tree.wins[i]? = some w →
       ∃ w', t'.wins[i]? = some w' ∧ w'.freed = w.freed ∧ (w.freed = false → w'.refcount = w.refcount)) :
-    SInv { st with tree := t' } := by
-  refine ⟨inv.toSInvB.of_tree hinv hsz ?_, ?_⟩
+    SInv gh { st with tree := t' } := by
+  refine ⟨inv.toSInvB.of_tree hinv hsz ?_, ?_, fun hg => by
+    obtain ⟨r, hr⟩ := inv.glive hg
+    obtain ⟨w', hw', hf, _⟩ := h 0 r hr.1
+    exact ⟨w', hw', by rw [hf]; exact hr.2⟩⟩
   · intro i w hw
     obtain ⟨w', hw', hf, hr⟩ := h i w hw
     exact ⟨w', hw', hf, fun hfl h1 => by rw [hr hfl]; exact h1⟩
@@ -542,15 +556,15 @@ theorem SInv.of_tree {st : St} (inv : SInv st) {t' : Tree} (hinv : TInv t') (hsz
       rw [hr hfl]
       exact inv.wref i w ⟨hw, hfl⟩
 
-theorem SInv.of_rel' {st : St} (inv : SInv st) {t' : Tree} (hinv : TInv t') (hrel : TRel st.tree t')
-    (hrc : SameRC st.tree t') : SInv { st with tree := t' } := by
+theorem SInv.of_rel' {st : St} (inv : SInv gh st) {t' : Tree} (hinv : TInv t') (hrel : TRel st.tree t')
+    (hrc : SameRC st.tree t') : SInv gh { st with tree := t' } := by
   refine inv.of_tree hinv hrel.1 ?_
   intro i w hw
   obtain ⟨w', hw', hr⟩ := hrel.2 i w hw
   exact ⟨w', hw', hr.2.2.1, fun _ => hrc i w w' hw hw'⟩
 
-theorem SInv.of_closed {st : St} (inv : SInv st) {t' : Tree} {win : Nat} {ww : Win} (hw : LiveW st.tree win ww)
-    (C : Closed st.tree t' win ww) : SInv { st with tree := t' } := by
+theorem SInv.of_closed {st : St} (inv : SInv gh st) {t' : Tree} {win : Nat} {ww : Win} (hw : LiveW st.tree win ww)
+    (C : Closed st.tree t' win ww) : SInv gh { st with tree := t' } := by
   refine inv.of_tree C.inv C.size_eq ?_
   intro i w hwi
   by_cases hi : i = win
@@ -563,16 +577,20 @@ theorem SInv.of_closed {st : St} (inv : SInv st) {t' : Tree} {win : Nat} {ww : W
     · exact ⟨_, h, rfl, fun _ => rfl⟩
 
 /-- `tickit_window_ref` by the application on a window it holds. -/
-theorem refW_ok {st : St} (inv : SInv st) {win : Nat} {ww : Win} (hw : LiveW st.tree win ww) :
-    ∃ st', refW (setX st win { getX st win with appRefs := (getX st win).appRefs + 1 }) win = .ok st' ∧ SInv st' := by
+theorem refW_ok {st : St} (inv : SInv gh st) {win : Nat} {ww : Win} (hw : LiveW st.tree win ww) :
+    ∃ st', refW (setX st win { getX st win with appRefs := (getX st win).appRefs + 1 }) win = .ok st' ∧ SInv gh st' := by
   have hlt : win < st.wx.size := by rw [inv.wx_size]; exact hw.lt
-  have inv1 : SInvB (setX st win { getX st win with appRefs := (getX st win).appRefs + 1 }) [] :=
+  have inv1 : SInvB gh (setX st win { getX st win with appRefs := (getX st win).appRefs + 1 }) [] :=
     inv.toSInvB.of_wx rfl rfl rfl rfl rfl (setX_map_pen _ rfl)
   unfold refW
   simp only [getW, setX_tree, get_live hw, bind_ok, pure_ok]
   refine ⟨_, rfl, ?_⟩
   obtain ⟨inv', _⟩ := inv.tinv.set_refcount hw (ww.refcount + 1)
-  refine ⟨inv1.of_tree (t' := WinTree.set st.tree win { ww with refcount := ww.refcount + 1 }) inv' (set_size _ _ _) ?_, ?_⟩
+  refine ⟨inv1.of_tree (t' := WinTree.set st.tree win { ww with refcount := ww.refcount + 1 }) inv' (set_size _ _ _) ?_, ?_, fun hg => by
+    obtain ⟨r, hr⟩ := inv.glive hg
+    by_cases h0 : win = 0
+    · subst h0; exact ⟨_, set_get_self _ hw.lt, hw.2⟩
+    · exact ⟨r, by show (WinTree.set st.tree win _).wins[0]? = some r; rw [set_get_ne _ h0]; exact hr.1, hr.2⟩⟩
   · intro i w hwi
     simp only [setX_tree] at hwi
     by_cases hi : win = i
@@ -593,8 +611,12 @@ theorem refW_ok {st : St} (inv : SInv st) {win : Nat} {ww : Win} (hw : LiveW st.
       have := LiveW.unique hl' hl0; subst this
       have := inv.wref win ww hw
       simp only [hlt, and_self, if_true]
-      show ww.refcount + 1 ≤ (((getX st win).appRefs + 1 : Nat) : Int)
-      omega
+      refine ⟨?_, fun hcov => ?_⟩
+      · show ww.refcount + 1 ≤ (((getX st win).appRefs + 1 : Nat) : Int) + (gh.win win : Int)
+        omega
+      · show (((getX st win).appRefs + 1 : Nat) : Int) + (gh.win win : Int) ≤ ww.refcount + 1
+        have := this.2 hcov
+        omega
     · simp only [hi, false_and, if_false]
       exact inv.wref i w' ⟨by rw [← set_get_ne _ hi]; exact hl'.1, hl'.2⟩
 
